@@ -57,11 +57,11 @@ Theorem C16_spec_run_sound : forall ops all, forallb op_wfb ops = true -> trace_
 Proof. exact spec_run_ok. Qed.
 Print Assumptions C16_spec_run_sound.
 
-(* the code at HEAD does not have the property: D19 (stale lru_cache), D31 (range query on a stale index),
+(* the code at HEAD does not have the property: D19 (stale lru_cache), D32 (range query on a stale index),
    D20 (base after a half open block) *)
 Theorem C16_history_refuted :
   (hist_wfb ops_D19 = true /\ ~ trace_ok [] ops_D19 (run_ops cfg_head init ops_D19)) /\
-  (hist_wfb ops_D31 = true /\ ~ trace_ok [] ops_D31 (run_ops cfg_head init ops_D31)) /\
+  (hist_wfb ops_D32 = true /\ ~ trace_ok [] ops_D32 (run_ops cfg_head init ops_D32)) /\
   (hist_wfb ops_D20 = true /\ ~ trace_ok [] ops_D20 (run_ops cfg_head init ops_D20)).
 Proof. exact refuted_head. Qed.
 Print Assumptions C16_history_refuted.
@@ -77,10 +77,10 @@ Theorem C16_D19_sort_refuted :
 Proof. exact refuted_D19_sort. Qed.
 Print Assumptions C16_D19_sort_refuted.
 
-Theorem C16_D31_refuted :
-  hist_wfb ops_D31 = true /\ ~ trace_ok [] ops_D31 (run_ops (mkCfg true false true) init ops_D31).
-Proof. exact refuted_D31. Qed.
-Print Assumptions C16_D31_refuted.
+Theorem C16_D32_refuted :
+  hist_wfb ops_D32 = true /\ ~ trace_ok [] ops_D32 (run_ops (mkCfg true false true) init ops_D32).
+Proof. exact refuted_D32. Qed.
+Print Assumptions C16_D32_refuted.
 
 Theorem C16_D20_refuted :
   hist_wfb ops_D20 = true /\ ~ trace_ok [] ops_D20 (run_ops (mkCfg true true false) init ops_D20).
